@@ -38,7 +38,8 @@ var propSpecs = map[string]*PropSpec{
 	"C10": {ID: "C10", Pkgs: []string{"./benchunit"}},
 	"C11": {ID: "C11", Pkgs: []string{"./internal/stats"}},
 	"C12": {ID: "C12", Pkgs: []string{"./internal/stats"}},
-	"C13": {ID: "C13", Pkgs: []string{"./benchmath"}},
+	"C13": {ID: "C13", Pkgs: []string{"./benchmath"}, BoundedChecks: []boundedSpec{
+		{"benchmath", "compare", "AssumeNothing.Compare on all pairs of small samples: both sizes, p in [0,1], symmetric, invariant under reordering and common rescaling, equal to the exact permutation p-value for untied samples, threshold carried — the statistical content lives in the external module go-moremath and is outside deductive reach"}}},
 	"C14": {ID: "C14", Pkgs: []string{"./cmd/benchstat/internal/benchtab", "./benchproc"}},
 	"C16": {ID: "C16", Pkgs: []string{"./cmd/benchstat/internal/texttab", "./benchproc"}},
 	"C17": {ID: "C17", Pkgs: []string{"./benchstat"}},
@@ -52,6 +53,9 @@ type KnownFinding struct {
 	What       string `json:"what"`
 	Commit     string `json:"commit,omitempty"`
 	Input      string `json:"input,omitempty"`
+	// For findings of bounded stand-ins: the check and the class of failing inputs.
+	Bounded string `json:"bounded,omitempty"`
+	Class   string `json:"class,omitempty"`
 }
 
 func loadKnownFindings(path string) []KnownFinding {
@@ -172,6 +176,7 @@ func runProperty(repo, lib, prop, tier string) int {
 	var lines []string
 	nReplay := 0
 	reported := map[string]bool{} // one VIOLATION line per clause, not per path
+	var knownLines []string
 	for _, k := range order {
 		res := done[k]
 		if res.Trusted {
@@ -242,7 +247,6 @@ func runProperty(repo, lib, prop, tier string) int {
 		}
 		fns = append(fns, fe)
 	}
-	var knownLines []string
 	var knownObls []string
 	for i, kf := range known {
 		if kf.Property == prop && kf.Status == "known" && knownHit[i] {
@@ -251,7 +255,7 @@ func runProperty(repo, lib, prop, tier string) int {
 		}
 	}
 	// bounded stand-ins
-	bounded := runBounded(v, ps, tier, seed, verifDir, &lines, &violations, &nReplay)
+	bounded := runBounded(v, ps, tier, seed, verifDir, &lines, &violations, &nReplay, known, &knownLines)
 
 	var tb []string
 	for k := range trusted {
